@@ -71,9 +71,11 @@ CLAIMS = {
         technique="static analysis: zero-pattern taint, must-depend (REL) and dominance rules over symbolic terms"),
     "C08": dict(
         text=_T + "Narrow: decides zero-pattern dependence of dag_to_cpdag/order_edges, agreement of the label constants "
-             "between labeller and assembler, that every labelled edge lands in the CPDAG (skeleton kept), and that the "
-             "extension search's ValueError propagates through pdag_to_cpdag.",
-        note="Not decided: which edges Chickering's ordering/labelling marks compelled vs reversible.",
+             "between labeller and assembler, that every labelled edge lands in the CPDAG (skeleton kept), that the "
+             "extension search's ValueError propagates through pdag_to_cpdag, and the passes of order_edges / label_edges role by role "
+             "(which edge is selected, column vs row of every lookup, what each branch writes, end of pass, and the compelled/reversible "
+             "choice as a set predicate over pa(y), {x}, pa(x) in all admissible worlds).",
+        note="Not decided: that an algorithm of this shape marks exactly the compelled edges (Chickering's theorem).",
         technique="static analysis: zero-pattern taint, writer/reader constant agreement, exception propagation"),
     "C10": dict(
         text=_T + "Narrow: decides zero-pattern dependence of imec/dag_to_icpdag, the I ⊆ [p] and undirected-edge-at-target "
@@ -86,7 +88,7 @@ CLAIMS = {
     "C11": dict(
         text=_T + "Decides strict upper triangle, the same random permutation on both axes, ordering = argsort(permutation), "
              "weights uniform(w_min, w_max) masked by 0/1, edge probability k/(p-1) with a Bernoulli threshold idiom, "
-             "generator seeded from random_state.",
+             "generator seeded from random_state; on every return path (fast paths included) the ordering comes from a draw.",
         note="Not decided: distributional facts beyond the idiom (numpy's generator is trusted).",
         technique="static analysis: index-space typing and slot dataflow over symbolic terms, scalar normal form"),
     "C12": dict(
@@ -97,9 +99,9 @@ CLAIMS = {
     "C13": dict(
         text=_T + "Decides for every API with a random_state that each reachable draw comes from default_rng(random_state) "
              "built once, or from the global stream after an `is not None`-guarded reseed with that very parameter; no "
-             "fallback seed; unseeded sampling never seeds.",
+             "fallback seed; unseeded sampling never seeds; no seeded API writes into its arguments, the model or module state.",
         note="Trusted: numpy generators are deterministic functions of their seed; user callables may read the global stream.",
-        technique="static analysis: interprocedural randomness-provenance/effect analysis (abstract interpretation with must-seeded state)"),
+        technique="static analysis: interprocedural randomness-provenance/effect analysis (abstract interpretation with must-seeded state) + ownership analysis"),
     "C14": dict(
         text=_T + "Decides that no write reaches an object reachable from a parameter or (outside __init__) from self, that "
              "constructors store fresh copies, that nothing returned aliases caller or model storage, and that default "
@@ -132,13 +134,14 @@ CLAIMS = {
         technique="static analysis: zero-pattern taint, predicate normal forms, dominance and slot dataflow"),
     "C19": dict(
         text=_T + "Decides writer/reader agreement of the (node, environment) forest slots and of sorted parent columns, "
-             "children generated from synthetic parent columns in topological order, one generator per seeded call with "
+             "one forest object per slot (allocated inside both loops), children generated from synthetic parent columns in topological order, one generator per seeded call with "
              "the global stream reseeded before forest draws, and a guard per documented TypeError/ValueError clause.",
         note="Not decided: that the R forest's weights are meaningful (external). semi.py cannot be imported here (no R): static analysis needs neither.",
         technique="static analysis: RNG effect analysis, index agreement and guard rules over symbolic terms"),
     "C20": dict(
         text=_T + "Decides that each factory's closure passes its parameters to the matching numpy slot with size <- n, "
-             "normal converts variance to standard deviation, draws use the global legacy stream, zero/null are constant 0.",
+             "normal converts variance to standard deviation, draws use the global legacy stream and stay on it under ANM's deepcopy "
+             "(no partial over a bound method of the global RandomState), zero/null are constant 0.",
         note="Not decided: the distributional laws themselves (numpy).",
         technique="static analysis: closure evaluation to symbolic terms, slot/unit rules"),
 }
